@@ -338,7 +338,51 @@ func genServers(r *common.Rand, kind string) [][2]string {
 	return out
 }
 
+// c11Long: more than 2^31 selections on one selector with no update in between (a busy client over a few days): the
+// rotating strategies keep returning members of the set and never crash, whatever counters they keep.  Thorough tier
+// only (tens of seconds).  case: long|<mode>
+func c11Long(o *common.Out, id string, mode client.SelectMode) {
+	abstract := fmt.Sprintf("long|%d", int(mode))
+	o.Begin(id, abstract)
+	servers := map[string]string{"a": "weight=2", "b": "weight=1", "c": "weight=3"}
+	sel := client.VerifNewSelector(mode, servers)
+	total := uint64(1)<<31 + 1000
+	bad := ""
+	func() {
+		defer func() {
+			if e := recover(); e != nil {
+				bad = fmt.Sprintf("the selector crashed after more than 2^31-1000 selections on an unchanged set: %v", e)
+			}
+		}()
+		ctx := context.Background()
+		for i := uint64(0); i < total; i++ {
+			r := sel.Select(ctx, "p", "m", nil)
+			if i > total-3000 {
+				if _, ok := servers[r]; !ok {
+					bad = fmt.Sprintf("selection number %d returned %q, not a member of the set", i+1, r)
+					return
+				}
+			}
+		}
+	}()
+	if bad != "" {
+		o.Fail(id, "selector-panic", bad, abstract)
+	}
+	o.ImplOnly(id, abstract, true)
+	o.Count("long-run")
+}
+
 func runC11(r *common.Rand, tier string, o *common.Out, replay string) {
+	if strings.HasPrefix(replay, "long|") {
+		var m int
+		fmt.Sscanf(replay, "long|%d", &m)
+		c11Long(o, "replay", client.SelectMode(m))
+		return
+	}
+	if replay == "" && tier == "thorough" {
+		c11Long(o, "long-wrr", client.WeightedRoundRobin)
+		c11Long(o, "long-rr", client.RoundRobin)
+	}
 	if replay != "" {
 		kind, cfg, ops := decOps(replay)
 		c11Run(o, "replay", kind, cfg, ops)
